@@ -136,6 +136,33 @@ func runPick(c *vf.Check, g *groups.G) {
 		c.Nontrivial(id)
 		c.Class(g.Name+"/Pick", func() any { return id })
 	}
+	// a family of seeded streams: candidates that have to be rejected or reduced (x >= p, no square root, wrong
+	// subgroup) occur with small probability per stream
+	ns := 2000
+	if g.Slow || g.Kind == "G2" || g.Kind == "GT" {
+		ns = 300
+	}
+	for blk := 0; blk < ns; blk += 100 {
+		blk := blk
+		id := fmt.Sprintf("%s: Pick(stream #i) for i in [%d,%d)", g.Name, blk, blk+100)
+		c.Case(id, pk, func(x *vf.Ctx) {
+			for i := blk; i < blk+100 && i < ns; i++ {
+				p := g.Point().Pick(alpha.Stream(fmt.Sprintf("c17-pick-family-%d", i)))
+				c.Eval(1)
+				if why := inGroup(g, p); why != "" {
+					x.Failf(pk+"/non-member", "%s: Pick(stream #%d) = %x.. is not a group member: %s", id, i, fmod.Enc(p)[:8], why)
+					return
+				}
+				q := g.Point()
+				if err := q.UnmarshalBinary(fmod.Enc(p)); err != nil || !q.Equal(p) {
+					x.Failf(pk+"/not-decodable", "%s: the encoding of Pick(stream #%d) does not decode to an Equal point: %v", id, i, err)
+					return
+				}
+			}
+		})
+		c.Count("transitions", 100)
+		c.Nontrivial(id)
+	}
 }
 
 func pat(kind, n int) []byte {
@@ -385,6 +412,35 @@ func runHash(c *vf.Check, g *groups.G) {
 		c.Count("transitions", 1)
 		c.Nontrivial(id)
 		c.Class(g.Name+"/Hash", func() any { return id })
+	}
+	// a family of 3000 short messages (2000 for slow groups): rare shapes of intermediate values (a coordinate with
+	// leading zero bytes, several candidates rejected) occur with probability 2^-7 .. 2^-8 per message
+	nm := 3000
+	if g.Slow || g.Kind == "G2" {
+		nm = 1000
+	}
+	for blk := 0; blk < nm; blk += 250 {
+		blk := blk
+		id := fmt.Sprintf("%s: Hash(\"message i\") for i in [%d,%d)", g.Name, blk, blk+250)
+		c.Case(id, pk, func(x *vf.Ctx) {
+			for i := blk; i < blk+250 && i < nm; i++ {
+				msg := []byte(fmt.Sprintf("message %d", i))
+				p := hashOf(g, msg)
+				c.Eval(1)
+				if why := inGroup(g, p); why != "" {
+					x.Failf(pk+"/non-member", "%s: Hash(%q) is not a group member: %s", id, msg, why)
+					return
+				}
+				e := fmod.Enc(p)
+				q := g.Point()
+				if err := q.UnmarshalBinary(e); err != nil || !q.Equal(p) {
+					x.Failf(pk+"/not-decodable", "%s: the encoding of Hash(%q) does not decode to an Equal point: %v", id, msg, err)
+					return
+				}
+			}
+		})
+		c.Count("transitions", 250)
+		c.Nontrivial(id)
 	}
 	// domain separation
 	type h2 interface {
